@@ -335,6 +335,12 @@ func c06History(t testing.TB, r *vreport.Report, c c06Case, peers TestISGRPeers,
 			r.Add("v4_revtree_ids_differ_with_equal_cv", 1)
 		}
 	}
+	if len(diffs) == 1 && diffs[0] == "current-version-differs" && a.Deleted && p.Deleted {
+		// both peers deleted the document independently: the two tombstones have the same revision-tree id but each peer
+		// generated its own version for it, and replication treats tombstone-against-tombstone as nothing to do
+		r.Violate("C06/diverged/independent-deletes-keep-different-current-versions/"+tag, "after catch-up both peers hold a tombstone (winning revision "+a.RevTree+" / "+p.RevTree+") under different current versions: "+desc, c)
+		return true
+	}
 	if len(diffs) > 0 {
 		if cause := c06RootCause(a, p); cause != "" {
 			r.Violate("C06/diverged/"+cause+"/"+tag, "after catch-up ("+strings.Join(diffs, ", ")+"): "+desc, c)
